@@ -221,7 +221,8 @@ Section AB.
 
   Definition arep_filter (g : G) (ms : list Move) : list Move :=
     match gmoves g with
-    | m1 :: _ :: _ :: m4 :: m5 :: _ => if move_eqb m1 m5 then swap_remove_move ms m4 else ms
+    | m1 :: m2 :: m3 :: m4 :: m5 :: _ =>
+        if move_eqb m1 m5 && is_reversal m4 m2 && is_reversal m5 m3 then swap_remove_move ms m4 else ms
     | _ => ms
     end.
 
